@@ -1765,10 +1765,15 @@ class Interp:
             # `self._helper(...)` / `Class._helper(...)` of the caller's own class
             call = node.value if isinstance(node, (ast.Await, ast.YieldFrom)) else node
             owner = self.p.enclosing_self_class(fr.fn)
+            first = None
+            if not isinstance(fr.fn.node, ast.Lambda) and fr.fn.cls is not None and \
+                    not fr.fn.is_static:
+                own = fr.fn.node.args.posonlyargs + fr.fn.node.args.args
+                first = own[0].arg if own else None
             if not (isinstance(call, ast.Call) and isinstance(call.func, ast.Attribute)
                     and isinstance(call.func.value, ast.Name) and owner is not None
                     and fn.cls is not None and self.p.is_subclass(owner.qn, fn.cls.qn)
-                    and call.func.value.id in ('self', fn.cls.name, owner.name)):
+                    and call.func.value.id in ('self', fn.cls.name, owner.name, first)):
                 return False
         elif fn.cls is not None:
             if not self._same_self(node, fr, callee) and \
